@@ -148,9 +148,11 @@ func runC14(w *core.World, r *core.Report) {
 	r.Rule("R4", "the assembler's integer encoder never right-trims the big-endian buffer")
 	r.Rule("R5", "Parse* functions hand out the primitive decoders' values unmodified (no constant or arithmetic on a success path)")
 	r.Rule("R6", "disassembler lines are built with constant format strings whose verb count equals the argument count")
+	r.Rule("R16", "the assembler's encoder keeps the whole 32-bit range: numbers parsed from the source are not narrowed or range-limited below it without a check (C16 R8)")
 	r.Rule("R14", "the two instruction buffers of the batch menu expansion share no memory")
 	r.Rule("R13", "length and size prefixes are written as bytes: no WriteRune of a computed value in asm or vm")
 	r.Rule("R12", "the assembler encodes each source line in a buffer allocated for it (C16 R6): encodings of concurrent or nested Parse calls cannot interleave")
+	r.Rule("R15", "the primitive decoders refuse an operand for its framing only, never for its content (they call no predicate over the operand bytes)")
 	r.Rule("R11", "decoded strings are copies of the instruction bytes: the codec packages do not import unsafe")
 	r.Rule("R10", "the disassembler's listing is written into a buffer allocated for the call")
 	r.Rule("R9", "vm.NewLine writes the width byte of the integer operand behind a nil test, not a length test")
@@ -395,6 +397,8 @@ func runC14(w *core.World, r *core.Report) {
 	checkNoRuneWrites(w, r, "R13")
 	checkMenuBuffersDistinct(w, r, "R14")
 	checkFreshLineBuffer(w, r, "R12")
+	checkPrimitiveDecodersJudgeFramingOnly(w, r, "R15")
+	checkAsmNumbersNotNarrowed(w, r, "R16")
 
 	// ---- R4 -----------------------------------------------------------------------------------
 	checkNoRightTrim(w, r, "R4")
